@@ -973,6 +973,37 @@ func checkC16(w *World, r *Report) {
 			return o.Rule == "C14.R1" || o.Rule == "C14.R2" || o.Rule == "C14.R3" || o.Rule == "C14.R4" || o.Rule == "C14.R5"
 		})
 		checkResponseChanOpen(w, r, "C16.R6")
+		// the inbox keeps its processer while a worker may still be inside the loop (C02.R5: the processer is published in the
+		// starting window and by nobody else): a connection that drops stops the writer's inbox from another goroutine
+		importRules(w, r, checkC02, "C02", "C16.R6", func(o *Obligation) bool { return o.Rule == "C02.R5" })
+		// a response process is registered like any other: a peer can answer a pending request with any type. What comes
+		// out of Response.Result is asserted with comma-ok everywhere in the library.
+		{
+			var bad []string
+			n := 0
+			for _, fn := range w.Funcs {
+				if !w.isLib(fn) {
+					continue
+				}
+				for _, in := range w.insOf(fn) {
+					ta, ok := in.(*ssa.TypeAssert)
+					if !ok {
+						continue
+					}
+					p := w.pathOf(ta.X)
+					if !strings.HasPrefix(p, "call:(*actor.Response).Result(") {
+						continue
+					}
+					n++
+					if !ta.CommaOk {
+						bad = append(bad, fname(fn)+" at "+w.pos(ta.Pos()))
+					}
+				}
+			}
+			r.Check(len(bad) == 0, "C16.R6", "Response.Result:checked-assertions", "the reply of a request is type-asserted with comma-ok wherever the library reads one", "-",
+				"unchecked assertion on a reply in "+strings.Join(bad, "; ")+": a peer that sends any other registered type to the response PID of a pending request makes the caller's goroutine panic")
+			_ = n
+		}
 	}
 	// R4 custom processers
 	procI, _ := w.Named("actor", "Processer").Underlying().(*types.Interface)
@@ -1022,19 +1053,50 @@ func checkC16(w *World, r *Report) {
 		okS := true
 		used := 0
 		where := ""
-		for i, in := range wg.ins {
-			c := callOf(in)
-			if c == nil || !c.IsInvoke() || w.pathOf(c.Value) != "P0.stream" {
-				continue
-			}
-			used++
-			if len(guard) == 0 || !wg.OnlyVia(guard, i) {
-				okS = false
-				where = w.pos(in.Pos())
+		// what the dial sets up (the fields the init function stores: raw connection, drpc connection, stream) is nil
+		// until the dial has finished
+		late := map[string]bool{"stream": true}
+		if a.wInit != nil {
+			for _, in := range w.insOf(a.wInit) {
+				if st, isSt := in.(*ssa.Store); isSt {
+					if fa, isFA := st.Addr.(*ssa.FieldAddr); isFA && w.pathOf(fa.X) == "P0" {
+						if nm, _ := fieldName(fa); nm != "" {
+							late[nm] = true
+						}
+					}
+				}
 			}
 		}
-		r.Check(okS && used > 0, "C16.R4", fname(W)+":stream-only-with-accepted-deliveries", "the writer touches its stream only when the batch holds an accepted delivery (or the stream was checked for nil)", w.fnPos(W),
-			"the stream is used at "+where+" although every message of the batch may have been rejected: a message addressed to the writer's PID while it is still dialling dereferences the nil stream on the inbox goroutine and kills the node")
+		for i, in := range wg.ins {
+			c := callOf(in)
+			if c == nil {
+				continue
+			}
+			var recvV ssa.Value
+			if c.IsInvoke() {
+				recvV = c.Value
+			} else if f := c.StaticCallee(); f != nil && f.Signature.Recv() != nil && len(c.Args) > 0 {
+				recvV = c.Args[0]
+			}
+			if recvV == nil {
+				continue
+			}
+			rp := w.pathOf(recvV)
+			if !strings.HasPrefix(rp, "P0.") || !late[strings.TrimPrefix(rp, "P0.")] {
+				continue
+			}
+			if rp == "P0.stream" {
+				used++
+			}
+			_, set := w.nilEdges(wg, rp)
+			gd := append(append([]Edge{}, guard...), set...)
+			if len(gd) == 0 || !wg.OnlyVia(gd, i) {
+				okS = false
+				where = w.pos(in.Pos()) + " (" + rp + ")"
+			}
+		}
+		r.Check(okS && used > 0, "C16.R4", fname(W)+":stream-only-with-accepted-deliveries", "the writer touches its stream and connection only when the batch holds an accepted delivery (or they were checked for nil)", w.fnPos(W),
+			"used at "+where+" although every message of the batch may have been rejected: a message addressed to the writer's PID while it is still dialling dereferences the nil stream on the inbox goroutine and kills the node")
 	}
 	// comma-ok discipline: the asserted value is only used where ok holds
 	for _, fn := range w.Funcs {
@@ -1138,6 +1200,25 @@ func checkC17(w *World, r *Report) {
 	w.checkRow(r, row{rule: "C17.R1", fn: a.wSend, callee: EvInvoke("Inboxer.Send", w.IfaceMethod("actor", "Inboxer", "Send")), name: "Inboxer.Send",
 		args: []string{"P0.inbox", "lit:Envelope{Msg=P2,Sender=P3}"}, why: "The writer drops or alters queued deliveries."})
 
+	// the writer's inbox is fed by its Send alone: a writer that puts part of a batch back into its own inbox sends it
+	// behind whatever arrived meanwhile (order between two sends of one goroutine to one target is lost)
+	{
+		evIS := EvInvoke("Inboxer.Send", w.IfaceMethod("actor", "Inboxer", "Send"))
+		var others []string
+		for _, fn := range w.MethodsOf("remote", "streamWriter") {
+			if fn == a.wSend {
+				continue
+			}
+			for _, ci := range w.callsIn(fn, Ev{Name: evIS.Name, M: evIS.M, Shallow: true}) {
+				if len(w.inlineRoots(fn)) == 1 && w.inlineRoots(fn)[0] == a.wSend {
+					continue
+				}
+				others = append(others, fname(fn)+" at "+w.pos(ci.Pos()))
+			}
+		}
+		r.Check(len(others) == 0, "C17.R1", "streamWriter.inbox:fed-by-Send-only", "only streamWriter.Send enqueues into the writer's inbox", w.fnPos(a.wSend),
+			"also enqueued by "+strings.Join(others, "; ")+": deliveries put back into the inbox travel behind later ones")
+	}
 	// R2 and R4: the router (rules_remote2.go)
 	checkRouter(w, r, eSend)
 	// R3
